@@ -361,6 +361,17 @@ func ruleC13Lock(r *Run, p *Program, rule string) {
 				"the lock file is unlinked while the flock is still held, then closed", "Unlock closes the descriptor (releasing the flock) before unlinking the path: an opener that locks and re-validates between the close and the unlink passes the check and then holds a lock on a file that is about to be unlinked, while the next opener creates a new one (two holders)")
 		}
 	}
+	// acquisition never unlinks the lock path: only the holder's Unlock does
+	rmInAcq := false
+	deepInstrs(p, f, func(in ssa.Instruction) {
+		if c, ok := in.(*ssa.Call); ok && (calleeKey(&c.Call) == "os.Remove" || calleeKey(&c.Call) == "os.RemoveAll" || calleeKey(&c.Call) == "os.Rename") {
+			rmInAcq = true
+			r.bad(rule, "fs.createLockFile[unix]:no-unlink", p.Pos(c.Pos()), "lock acquisition unlinks/renames the lock path: stat+open(O_CREATE) is not atomic, so an opener that lost the race can remove the winner's lock file; the winner then holds a lock on an unreachable file and the next opener succeeds (two holders), and a failed Open has changed the directory")
+		}
+	})
+	if !rmInAcq {
+		r.ok(rule, "fs.createLockFile[unix]:no-unlink", p.Pos(f.Pos()), "lock acquisition never unlinks the lock path", true)
+	}
 	// existed flag: advisory (Stat precedes the creating open)
 	r.advisory(rule+".existed-atomic", "fs.createLockFile[unix]", p.Pos(f.Pos()), "the 'lock file already existed' flag is derived from an os.Stat made before the creating open (check-then-act): an opener interleaved with a closing owner can report 'existed' for a cleanly closed database (spurious but harmless recovery). Not armed: closing the window entirely needs a different lock protocol, see DESIGN.md")
 }
@@ -741,6 +752,25 @@ func ruleC17(r *Run, p *Program, rule string) {
 					}
 				}
 				r.check(exact, rule+".size-bookkeeping", key+":size=arg", p.Pos(f.Pos()), "after Truncate(n) the logical size is n (shrinking included)", key+" does not set the logical size to its argument: after recovery truncates a torn tail the mapped file still reports the old length")
+			}
+		}
+	}
+	// the mapped file tracks the file position itself (Write derives the logical size from it): every method that moves the
+	// OS file position must be overridden, not promoted from *os.File
+	if impl := p.NamedType(p.FS, "osMMapFile"); r.anchor(rule+".size-bookkeeping", "type fs.osMMapFile", impl != nil) {
+		usesOffset := false
+		if wf := p.Fn("(*fs.osMMapFile).Write"); wf != nil {
+			instrsOf(wf, func(in ssa.Instruction) {
+				if u, ok := in.(*ssa.UnOp); ok && fieldName(u.X) == "fs.osMMapFile.offset" {
+					usesOffset = true
+				}
+			})
+		}
+		if usesOffset {
+			for _, m := range []string{"Read", "Write", "Seek"} {
+				sel := lookupMethod(impl, m)
+				own := sel != nil && sel.Pkg() != nil && sel.Pkg().Path() == fsPath
+				r.check(own, rule+".size-bookkeeping", "(*fs.osMMapFile)."+m+":tracks-position", "", m+" of the mapped file maintains the tracked file position", "(*fs.osMMapFile)."+m+" is promoted from *os.File and does not maintain osMMapFile.offset, from which Write computes the logical size that bounds Slice: after a "+m+" the mapped file reports appended data as beyond EOF while the other file systems return it")
 			}
 		}
 	}
